@@ -13,6 +13,7 @@ pub mod t_nodemap;
 pub mod t_names;
 pub mod g_roundtrip;
 pub mod p_parse;
+pub mod t_misc;
 
 pub type Harness = fn();
 pub fn registry() -> Vec<(&'static str, Harness)> {
@@ -27,5 +28,6 @@ pub fn registry() -> Vec<(&'static str, Harness)> {
     t_names::register(&mut v);
     g_roundtrip::register(&mut v);
     p_parse::register(&mut v);
+    t_misc::register(&mut v);
     v
 }
